@@ -58,7 +58,7 @@ func inputs(seed int64, thorough bool) [][]byte {
 	out := [][]byte{{}, {0}, {'a'}, []byte("hello hydraide"), bytes.Repeat([]byte{0}, 1000), bytes.Repeat([]byte("abcdefgh"), 500)}
 	sizes := []int{2, 63, 1024, 70000}
 	if thorough {
-		sizes = append(sizes, 3, 7, 15, 16, 17, 255, 256, 257, 300, 4095, 4096, 5000, 65535, 65536, 200000)
+		sizes = append(sizes, 3, 7, 16, 17, 255, 256, 4096, 65536)
 	}
 	for _, n := range sizes {
 		b := make([]byte, n)
